@@ -3,6 +3,7 @@ package icc
 import (
 	"fmt"
 	"github.com/mandykoh/prism/meta/binary"
+	"io"
 	"time"
 )
 
@@ -180,12 +181,12 @@ func (pr *ProfileReader) readHeader(header *Header) error {
 	}
 	header.ProfileCreator = Signature(value)
 
-	bytesRead, err := pr.reader.Read(header.ProfileID[:])
+	_, err = io.ReadFull(pr.reader, header.ProfileID[:])
+	if err == io.ErrUnexpectedEOF {
+		return fmt.Errorf("unexpected EOF when reading profile ID")
+	}
 	if err != nil {
 		return err
-	}
-	if bytesRead < len(header.ProfileID) {
-		return fmt.Errorf("unexpected EOF when reading profile ID")
 	}
 
 	// 28 reserved bytes
